@@ -42,6 +42,7 @@ pub fn setup(w: &mut World, app_ids: &[String], app_versions: &[String], cup: bo
             },
         );
         w.server.mock_cfg.insert(id.clone(), k.to_string());
+        w.server.mock_versions.insert(id.clone(), app_versions[i].clone());
     }
     let sk = &w.server.server_keys;
     let pk = PrivateKeys {
@@ -123,17 +124,27 @@ pub fn reconfigure(w: &mut World, n: u32) {
     let dis = w.server.mock_disable_updates;
     for (i, id) in ids.iter().enumerate() {
         let k = KINDS[w.draws.weighted(&format!("admin#{n}/app#{i}/kind"), &[30, 40, 10, 10, 10])];
-        cfg.insert(
-            id.clone(),
-            json!({
-                "response": k,
-                "check_assertion": if dis { "UpdatesDisabled" } else { "UpdatesEnabled" },
-                "version": Value::Null,
-                "cohort_assertion": Value::Null,
-                "codebase": format!("fuchsia-pkg://mock.example.test/r{n}/{i}/"),
-                "package_name": format!("update{i}?hash=cd"),
-            }),
-        );
+        let mut entry = serde_json::Map::new();
+        entry.insert("response".into(), json!(k));
+        entry.insert("check_assertion".into(), json!(if dis { "UpdatesDisabled" } else { "UpdatesEnabled" }));
+        entry.insert("codebase".into(), json!(format!("fuchsia-pkg://mock.example.test/r{n}/{i}/")));
+        entry.insert("package_name".into(), json!(format!("update{i}?hash=cd")));
+        // optional members: omitted, null, or set (version: the app's real version)
+        match w.draws.draw(&format!("admin#{n}/app#{i}/version_member"), 3) {
+            0 => {}
+            1 => {
+                entry.insert("version".into(), Value::Null);
+            }
+            _ => {
+                if let Some(v) = w.server.mock_versions.get(id) {
+                    entry.insert("version".into(), json!(v));
+                }
+            }
+        }
+        if w.draws.draw(&format!("admin#{n}/app#{i}/cohort_member"), 2) == 1 {
+            entry.insert("cohort_assertion".into(), Value::Null);
+        }
+        cfg.insert(id.clone(), Value::Object(entry));
         newcfg.insert(id.clone(), k.to_string());
     }
     let body = serde_json::to_vec(&Value::Object(cfg)).unwrap();
